@@ -168,16 +168,25 @@ impl ChannelQueue {
   pub fn runnable_waiter(&mut self) -> Option<Ref<ChannelWaiter>> {
     match self.kind {
       ChannelQueueKind::Sync => {
-        if self.is_empty() && !self.is_closed() {
-          find_runnable_waiter(&mut self.send_waiters)
-        } else {
+        if !self.is_empty() {
           find_runnable_waiter(&mut self.receive_waiters)
+        } else if self.is_closed() {
+          // receivers learn the channel is drained. A parked sender either had its value
+          // taken before the close or finds the channel closed when it retries
+          find_runnable_waiter(&mut self.receive_waiters)
+            .or_else(|| find_runnable_waiter(&mut self.send_waiters))
+        } else {
+          find_runnable_waiter(&mut self.send_waiters)
         }
       },
       ChannelQueueKind::Buffered => {
-        if self.is_empty() && !self.is_closed() {
+        if self.is_closed() {
+          // receivers drain what is left, senders parked on a full channel find it closed
+          find_runnable_waiter(&mut self.receive_waiters)
+            .or_else(|| find_runnable_waiter(&mut self.send_waiters))
+        } else if self.is_empty() {
           find_runnable_waiter(&mut self.send_waiters)
-        } else if self.len() == self.capacity || self.is_closed() {
+        } else if self.len() == self.capacity {
           find_runnable_waiter(&mut self.receive_waiters)
         } else {
           find_runnable_waiter(&mut self.send_waiters)
